@@ -463,8 +463,12 @@ theorem expire_origins (s : St) (ms : Nat) : OriginsFrom s { s with cache := exp
   split at hk
   · rename_i e0 he0
     split at hk
-    · cases hk
-    · cases hk; exact Or.inl ⟨e0, he0, rfl⟩
+    · simp only [Option.some.injEq] at hk
+      subst hk
+      exact Or.inl ⟨e0, he0, rfl⟩
+    · split at hk
+      · cases hk
+      · cases hk; exact Or.inl ⟨e0, he0, rfl⟩
   · cases hk
 
 theorem step_prov (c : Cfg) {s : St} (hp : Prov s) (op : Op) : Prov (step c s op).1 := by
